@@ -348,6 +348,10 @@ func runC05(ctx *Ctx) {
 	r := ctx.R
 	if ctx.Idx%10 == 9 {
 		runC05CLI(ctx)
+		// every other one carries a second case: the merge laws over a commit history, through the command line
+		if ctx.Idx%20 == 19 {
+			runC05Hist(ctx)
+		}
 		return
 	}
 	nCols := 2 + r.Intn(3)
@@ -427,6 +431,14 @@ func runC05(ctx *Ctx) {
 }
 
 func corpusC05(ctx *Ctx, op string, raw json.RawMessage) {
+	if op == "merge-cli-hist" {
+		var h c05HInput
+		if err := json.Unmarshal(raw, &h); err != nil {
+			panic(err)
+		}
+		c05HistEmit(ctx, &h, "corpus")
+		return
+	}
 	var in c05Input
 	if err := json.Unmarshal(raw, &in); err != nil {
 		panic(err)
